@@ -341,3 +341,50 @@ func SortedStrings(s []string) []string {
 	sort.Strings(out)
 	return out
 }
+
+// Pool replaces sync.Pool in instrumented files: what Get returns must not depend on the garbage
+// collector or on which P ran last. Inside a controlled execution it is a LIFO list that starts empty
+// with every execution; outside it is a real sync.Pool.
+type Pool struct {
+	New   func() any
+	real  sync.Pool
+	owner *sched
+	items []any
+}
+
+func (p *Pool) Get() any {
+	s := active
+	if s == nil || s.ended {
+		if v := p.real.Get(); v != nil {
+			return v
+		}
+		if p.New != nil {
+			return p.New()
+		}
+		return nil
+	}
+	if p.owner != s {
+		p.owner, p.items = s, nil
+	}
+	if n := len(p.items); n > 0 {
+		v := p.items[n-1]
+		p.items = p.items[:n-1]
+		return v
+	}
+	if p.New != nil {
+		return p.New()
+	}
+	return nil
+}
+
+func (p *Pool) Put(v any) {
+	s := active
+	if s == nil || s.ended {
+		p.real.Put(v)
+		return
+	}
+	if p.owner != s {
+		p.owner, p.items = s, nil
+	}
+	p.items = append(p.items, v)
+}
